@@ -93,6 +93,11 @@ int op_table(int n, char **t) {
         hex_print_bstr(stdout, key); putchar(' '); pv(v); return 1;
     }
     if (!strcmp(t[0], "size") && n == 1) { printf("%zu", htp_table_size(g_table)); return 1; }
+    if (!strcmp(t[0], "cost") && n == 1) {
+        /* key comparisons made by lookups since the last `cost` (hook counter in htp_table.c under LIBHTP_VERIF) */
+        extern unsigned long htp_verif_table_cmp;
+        printf("%lu", htp_verif_table_cmp); htp_verif_table_cmp = 0; return 1;
+    }
     if (!strcmp(t[0], "clear") && n == 1) { htp_table_clear(g_table); free_refs(); printf("ok"); return 1; }
     if (!strcmp(t[0], "dump") && n == 1) {
         size_t sz = htp_table_size(g_table);
